@@ -4,6 +4,7 @@ import Csproto.Bridge.WireFuncs
 import Csproto.Bridge.WireFuncs2
 import Csproto.Bridge.DecoderFuncs
 import Csproto.Bridge.SkipFuncs
+import Csproto.Props.C02Source
 import Csproto.Bridge.EncoderFuncs
 /- axiom audit for C02 -/
 open Csproto
@@ -68,3 +69,6 @@ open Csproto
 #print axioms Csproto.Bridge.SkipFuncs.prefix_eval
 #print axioms Csproto.Bridge.SkipFuncs.check_eval
 #print axioms Csproto.Bridge.SkipFuncs.len_eval
+
+-- the Skip clause of C02 stated about the translated source: Props/C02Source.lean
+#print axioms Csproto.C02.Source.source_skip_field
